@@ -29,6 +29,12 @@ var c02MapTemplates = []string{
 	"{{ m | compact | first }}",
 }
 
+type c02ID int
+type c02ID2 int
+type c02Name string
+type c02Pair struct{ A, B int }
+type c02Pair2 struct{ A, B int }
+
 func c02Reps() int {
 	if nd.Symbolic() {
 		return 2
@@ -48,6 +54,9 @@ func VerifC02MapOrder() {
 	case 5: // integer keys are solver variables, pairwise distinct: either 19-digit keys (2^62..2^63-1,
 		// where neighbouring integers are not distinguishable as float64) or single-digit keys of either
 		// sign; printing keys of arbitrary digit count forks 39 ways per key and does not finish
+		if !nd.Thorough() {
+			nd.Assume(n == 2) // quick tier: two solver-chosen keys (three multiply the paths by ten)
+		}
 		k1, k2, k3 := nd.Int64(), nd.Int64(), nd.Int64()
 		if nd.Choice(2) == 0 {
 			nd.Assume(k1 >= 1<<62 && k2 >= 1<<62 && k3 >= 1<<62)
@@ -65,7 +74,18 @@ func VerifC02MapOrder() {
 	case 4: // interface-keyed map mixing numbers, strings and booleans (as YAML decoding produces),
 		// including distinct keys that print alike or are numerically equal
 		var mm map[any]any
-		switch nd.Choice(5) {
+		switch nd.Choice(7) {
+		case 5: // keys of named types that tie with keys of the predeclared ones
+			mm = map[any]any{1: v[0], c02ID(1): v[1]}
+			if n == 3 {
+				mm[c02ID2(1)] = v[2]
+			}
+		case 6:
+			mm = map[any]any{"k": v[0], c02Name("k"): v[1]}
+			if n == 3 {
+				mm[c02Pair{1, 2}] = v[2]
+				mm[c02Pair2{1, 2}] = v[0]
+			}
 		case 0:
 			mm = map[any]any{"b": v[0], 2: v[1]}
 			if n == 3 {
